@@ -123,6 +123,12 @@ func (c *Case) Run() (obs Obs) {
 		}
 	}()
 	l := zerolog.New(w).Level(zerolog.Level(-128))
+	muted := false
+	if c.Root == 1 {
+		// the logger libraries hand out by default: Nop() = a Disabled logger, given a destination afterwards
+		l = zerolog.Nop().Output(w)
+		muted = true
+	}
 	pre := func() {
 		Marks = nil
 		c.Pre.run(l)
@@ -137,15 +143,77 @@ func (c *Case) Run() (obs Obs) {
 	}
 	for _, st := range c.Steps {
 		l = ApplyStep(l, st, w)
+		switch {
+		case st.Mute == 1:
+			muted = true
+		case st.Mute == 2 || st.Noise == 1:
+			muted = false
+		}
+	}
+	if muted {
+		l = l.Level(zerolog.Level(-128)) // a descendant of the muted stretch is enabled again
 	}
 	if c.Pre != nil && !c.Pre.Early {
 		pre()
 	}
 	Marks = nil // marshalers run while deriving the logger are not part of the event's trace
-	e := l.WithLevel(zerolog.Level(c.Level))
-	ApplyEvent(e, c.Ops)
-	finish(e, c.Fin, string(c.Msg))
+	switch c.EntryUsed() {
+	case 2:
+		l.Write(append(append([]byte{}, c.Msg...), '\n'))
+	case 3:
+		l.Print(string(c.Msg))
+	case 4:
+		l.Printf("%s", c.Msg)
+	default:
+		e := startEvent(l, c.Level, c.EntryUsed())
+		ApplyEvent(e, c.Ops)
+		finish(e, c.Fin, string(c.Msg))
+	}
 	return
+}
+
+// EntryNames: the ways an event of a given level is started (Case.Entry)
+var EntryNames = []string{"WithLevel(level)", "the level's method (Trace..Error, Log)", "Logger.Write (io.Writer bridge)", "Logger.Print", "Logger.Printf"}
+
+// EntryUsed: the entry point the case really goes through: an entry that does not exist for the case's level / fields
+// / finalizer falls back to WithLevel(level).
+func (c *Case) EntryUsed() int {
+	plain := len(c.Ops) == 0 && c.Fin == 0
+	switch c.Entry {
+	case 1:
+		if c.Level >= -1 && c.Level <= 3 || c.Level == 6 {
+			return 1
+		}
+	case 2:
+		if c.Level == 6 && plain {
+			return 2
+		}
+	case 3, 4:
+		if c.Level == 0 && plain {
+			return c.Entry
+		}
+	}
+	return 0
+}
+
+func startEvent(l zerolog.Logger, level, entry int) *zerolog.Event {
+	if entry == 1 {
+		switch zerolog.Level(level) {
+		case zerolog.TraceLevel:
+			return l.Trace()
+		case zerolog.DebugLevel:
+			return l.Debug()
+		case zerolog.InfoLevel:
+			return l.Info()
+		case zerolog.WarnLevel:
+			return l.Warn()
+		case zerolog.ErrorLevel:
+			return l.Error()
+		case zerolog.NoLevel:
+			return l.Log()
+		}
+	}
+	return l.WithLevel(zerolog.Level(level))
 }
 
 // Coq prints ((settings, chain, level, ops, msg), observed)
@@ -158,7 +226,7 @@ func (c *Case) Coq(o Obs) string {
 	for i, m := range o.Marks {
 		ms[i] = fmt.Sprintf("%d", m)
 	}
-	return fmt.Sprintf("((%s, %s, %s, %s, %s), (%s, %s%%N))", c.S.Coq(), StepsCoq(c.Steps, c.S), ZS(int64(c.Level)), OpsCoq(c.Ops, c.S), CoqBytes(c.Msg), line, CoqList(ms))
+	return fmt.Sprintf("((%s, %s, %s, %s, %s), (%s, %s%%N))", c.S.Coq(), StepsCoqAt(c.Steps, c.S, c.Level), ZS(int64(c.Level)), OpsCoq(c.Ops, c.S), CoqBytes(c.Msg), line, CoqList(ms))
 }
 
 func (c *Case) Describe() interface{} {
@@ -176,11 +244,33 @@ func (c *Case) Describe() interface{} {
 			if co.Key != nil {
 				d["key"] = fmt.Sprintf("%q", co.Key)
 			}
+			if co.K == "levelhook" {
+				lh := map[string]interface{}{}
+				for i, name := range []string{"TraceHook", "DebugHook", "InfoHook", "WarnHook", "ErrorHook", "FatalHook", "PanicHook", "NoLevelHook"} {
+					if co.LH[i] != nil {
+						lh[name] = DescribeOps(co.LH[i])
+					}
+				}
+				d["LevelHook"] = lh
+			}
 			cs = append(cs, d)
 		}
-		steps = append(steps, map[string]interface{}{"update": st.Update, "cops": cs})
+		sd := map[string]interface{}{"update": st.Update, "cops": cs}
+		switch st.Mute {
+		case 1:
+			sd["then"] = "Level(Disabled)"
+		case 2:
+			sd["then"] = "Level(-128)"
+		}
+		steps = append(steps, sd)
 	}
 	d := map[string]interface{}{"settings": fmt.Sprintf("%+v", c.S), "steps": steps, "level": c.Level, "ops": DescribeOps(c.Ops), "msg": fmt.Sprintf("%q", c.Msg), "finalizer": c.Fin}
+	if c.Entry != 0 {
+		d["event_started_through"] = EntryNames[c.EntryUsed()]
+	}
+	if c.Root == 1 {
+		d["root"] = "zerolog.Nop().Output(w), re-enabled by a later Level()"
+	}
 	if c.Pre != nil {
 		d["before_the_event"] = map[string]interface{}{"a_filtered_event_on_the_same_logger": PreludeModes[c.Pre.Mode], "times": c.Pre.Reps, "before_the_logger_is_derived": c.Pre.Early, "ops": DescribeOps(c.Pre.Ops), "finalizer": c.Pre.Fin}
 	}
@@ -188,19 +278,44 @@ func (c *Case) Describe() interface{} {
 }
 
 // HookMarks returns the mark ids of the hooks attached along the derivation, in registration order.
+// A LevelHook contributes the mark of the hook it holds for the case's level (if any) - unless an earlier hook of the
+// chain discards the event: the hooks after a discarding hook are handed Disabled as level (DESIGN.md section 8), so a
+// LevelHook then has no hook to apply; such LevelHooks are left out of what the monitors expect.
 func (c *Case) HookMarks() []uint64 {
 	var ids []uint64
+	discards := false
 	for _, st := range c.Steps {
 		if st.Update {
 			continue
 		}
-		for _, co := range st.Cops {
-			if co.K == "hook" && len(co.Sub) > 0 && co.Sub[0].K == "mark" {
-				ids = append(ids, co.Sub[0].ID)
+		for i := range st.Cops {
+			co := &st.Cops[i]
+			switch co.K {
+			case "hook":
+				if len(co.Sub) > 0 && co.Sub[0].K == "mark" {
+					ids = append(ids, co.Sub[0].ID)
+				}
+				discards = discards || hasDiscard(co.Sub)
+			case "levelhook":
+				if f := co.LevelHookFrag(c.Level); !discards && len(f) > 0 && f[0].K == "mark" {
+					ids = append(ids, f[0].ID)
+				}
+				for _, f := range co.LH {
+					discards = discards || hasDiscard(f)
+				}
 			}
 		}
 	}
 	return ids
+}
+
+func hasDiscard(ops []Op) bool {
+	for i := range ops {
+		if ops[i].K == "discard" || hasDiscard(ops[i].Sub) {
+			return true
+		}
+	}
+	return false
 }
 
 // RunTree builds the parent logger once, derives every kid from that SAME parent value (siblings), and only then emits
